@@ -301,21 +301,37 @@ c03 = with_shared(_c03, [(_c16, {'C16.O1': 'C03.j'}, 'a routine record is comple
 c01 = with_shared(_c01, [(_c03, {'C03.f': 'C01.h'}, 'a call binds the record of the routine registered under that name; the latest definition is registered by assignment'),
                          (_c04, {'C04.e': 'C01.k'}, 'a GOTO / IF..GOTO jumps to the mark of that name in its own program: marks are kept per routine and a mark the routine does not define is rejected'),
                          (c17, {'C17.Z1': 'C01.j'}, 'a reset machine is in the constructor state, so a run after reset() computes what the first run computes'),
-                         (c10, {'C10.a': 'C01.i', 'C10.d': 'C01.i2'}, 'macro temporaries of different expansions never coincide, so expansion preserves the meaning of nested macro uses')])
+                         (c10, {'C10.a': 'C01.i', 'C10.d': 'C01.i2'}, 'macro temporaries of different expansions never coincide, so expansion preserves the meaning of nested macro uses'),
+                         (c09, {'C09.e': 'C01.l', 'C09.f': 'C01.l2'}, 'a macro use means its body with every $n replaced by what slot n matched, and a literal of the pattern matches by kind and (identifiers, integers, operators) by text: otherwise a program using macros computes something else')])
 c02 = with_shared(_c02, [(c15, {'C15.I4': 'C02.g', 'C15.I6': 'C02.g2'}, 'scanning terminates: no hang on include cycles'),
-                         (c20, {'C20.A3': 'C02.h'}, 'no undefined arithmetic inside compile()'),
+                         (c20, {'C20.A3': 'C02.h', 'C20.A2': 'C02.h2'}, 'no undefined arithmetic inside compile() and no conversion that throws out of it'),
+                         (c09, {'C09.e': 'C02.n'}, 'every insertion index that survives extraction is a valid slot index: get_replacement never indexes out of bounds'),
+                         (c08, {'C08.e': 'C02.o', 'C08.h': 'C02.o2'}, 'positions carried by tree nodes and tokens are (file, line) pairs of one token, so an error reported there names a line inside a supplied file'),
                          (c11, {'C11.a': 'C02.i'}, 'macro expansion does work bounded by the pass budget: at most `passes` rewrites'),
                          (c12, {'C12.a': 'C02.j', 'C12.f': 'C02.j2'}, 'the conflict error of a definition is located at that definition\'s own first pattern token, a position in a supplied file')])
 c04 = with_shared(_c04, [(c20, {'C20.A2': 'C04.f', 'C20.A3': 'C04.f2'}, 'every literal that reaches an instruction is range-checked'),
-                         (c14, {'C14.L2': 'C04.g'}, 'the terminals have their documented lexical form')])
-c05 = with_shared(_c05, [(c08, {'C08.a': 'C05.f', 'C08.b': 'C05.f2', 'C08.c': 'C05.f3'}, 'the sites the VM rewrites are exactly the POTENTIAL_BREAK instructions the generator listed')])
+                         (c14, {'C14.L2': 'C04.g'}, 'the terminals have their documented lexical form'),
+                         (_c03, {'C03.f': 'C04.h'}, 'the argument-count rule is checked against the record of the latest definition of the called name'),
+                         (_c02, {'C02.e': 'C04.i'}, 'a source is accepted only if no stage recorded an error: correctness is decided after all stage errors were merged')])
+c05 = with_shared(_c05, [(c08, {'C08.a': 'C05.f', 'C08.b': 'C05.f2', 'C08.c': 'C05.f3'}, 'the sites the VM rewrites are exactly the POTENTIAL_BREAK instructions the generator listed'),
+                         (c17, {'C17.Z1': 'C05.g', 'C17.Z2': 'C05.g2'}, 'reset() disarms every site it forgets: a run after reset() with nothing enabled is the uninterrupted run')])
 c06 = with_shared(_c06, [(_c05, {'C05.b': 'C06.f'}, 'break handlers advance by exactly one instruction, so no site is skipped and the location lookup finds the site just passed'),
                          (_c08, {'C08.a': 'C06.g', 'C08.b': 'C06.g2'}, 'the site armed for a location is the marker emitted for that location and line_info names the same location for it, so a stop is reported at the line that was enabled')])
 c07 = with_shared(_c07, [(c08, {'C08.a': 'C07.i'}, 'a site is created (and listed) on every call of breakpoint()'),
                          (_c03, {'C03.f': 'C07.j'}, 'a call enters the routine of the latest definition under that name, so the lines visited and the variables listed are those of the routine the source calls')])
 c08 = with_shared(_c08, [(_c06, {'C06.b': 'C08.f', 'C06.c': 'C08.f2', 'C06.e': 'C08.g'}, 'the VM never adds a location: enable/clear only touch listed locations; locations are keyed by an order that keeps distinct (file, line) pairs apart'),
                          (_c05, {'C05.a': 'C08.f3'}, 'the VM writes only opcodes at listed sites')])
-c16 = with_shared(_c16, [(c17, {'C17.Z1': 'C16.O4'}, 'a reset machine has no activations, so the activation bound also holds across resets')])
+c16 = with_shared(_c16, [(c17, {'C17.Z1': 'C16.O4'}, 'a reset machine has no activations, so the activation bound also holds across resets'),
+                         (_c03, {'C03.g': 'C16.O5'}, 'every jump is resolved to a set label of its own routine: an unresolved jump would land on the root PREPARE and push activations without bound'),
+                         (c20, {'C20.A1': 'C16.O6'}, 'register values never become negative, so a LOOP counter that is decremented reaches zero')])
+_c09, _c12, _c14, _c17, _c18, _c20 = c09, c12, c14, c17, c18, c20
+c09 = with_shared(_c09, [(_c12, {'C12.f': 'C09.j'}, 'every definition is matched by a detector built from that very definition (and the caller\'s definitions are left intact for the next call)')])
+c12 = with_shared(_c12, [(_c09, {'C09.h': 'C12.h'}, 'conflicts are judged against the grammar of the language: the pattern grammar derives exactly the language\'s values, argument lists and statement sequences')])
+c14 = with_shared(_c14, [(c15, {'C15.I4': 'C14.S5'}, 'an include is replaced by the tokens of the named file exactly once per directive: a file that is being scanned is not entered again'),
+                         (_c02, {'C02.f': 'C14.S6'}, 'synthesised tokens (the final end-of-file token) are labelled with the position of the last scanned token')])
+c17 = with_shared(_c17, [(_c06, {'C06.b': 'C17.Z5'}, 'the enabled set and the armed sites change together: disabling one location leaves the others listed, so reset() can disarm them')])
+c18 = with_shared(_c18, [(_c02, {'C02.p': 'C18.P9'}, 'no value is read before it was written: results do not depend on what happened to be in memory')])
+c20 = with_shared(_c20, [(c11, {'C11.c': 'C20.A5'}, 'a range error recorded by any stage makes the compilation incorrect: the errors of every stage are merged before correctness is decided')])
 _c19 = c19
 c19 = with_shared(_c19, [(c17, {'C17.Z1': 'C19.F4'}, 'reset() returns the data memory and the activation stack to the constructor state: frames of calls that were pending at the reset are released'),
                          (_c03, {'C03.g': 'C19.F5'}, 'every jump of compiled code is resolved to a label of its own routine, so an activation that was entered is left through its RET and its frame is released'),
